@@ -116,7 +116,8 @@ def run(rep, tier):
         'repr keywords = constructor call arguments in declaration order; let / pass members are '
         'parsed but not passed; requires is evaluated.')
     rep.not_decided += ['what user Python computes']
-    shared.describe_rules(rep, only=('S-binder', 'S-value', 'S-flow', 'G5-local-stores', 'G2-as-sound', 'G2-cp-sound'))
+    shared.describe_rules(rep, only=('S-binder', 'S-value', 'S-flow', 'G5-local-stores', 'G2-as-sound', 'G2-cp-sound',
+                                     'G6-temp-unique'))
     for rid, txt in [
         ('LOCAL-shadow', 'locally bound names are emitted as locals, not as rules of the same name'),
         ('FREEVAR-visible', 'every verbatim emission of description text is visible to the free-variable protocol'),
@@ -128,7 +129,7 @@ def run(rep, tier):
     total = e1run.run(rep, ['Let', 'Seq', 'Where', 'Apply'], tier,
                       select=lambda f: f['rule'] in ('S-binder', 'S-value', 'S-flow', 'G5-local-stores',
                                                      'G1-no-trace', 'G2-as-sound', 'G2-cp-sound',
-                                                     'G3-protocol'))
+                                                     'G3-protocol', 'G6-temp-unique'))
     for K, want in {'Let': 18, 'Seq': 1300, 'Where': 18, 'Apply': 36}.items():
         rep.floor(f'configurations of {K}', total.get(K, 0), want)
     found, stats, nmods = routes.run(rep, 'C05', ['LOCAL-shadow', 'C05-', 'C14-field-tables'])
